@@ -40,9 +40,7 @@ def crypto_kills(ctx, also=None):
     ctx.floor('Crypto(...) construction sites', len(sites), 2)
     good = all(fi.qual == 'ikesa.IkeSa.generate_ike_sa_key_material' for fi, _ in sites)
     if good:
-        gen = ctx.prog.func('ikesa.IkeSa.generate_ike_sa_key_material')
-        text = src(gen.node)
-        good = 'cipher.key_size' in text and 'unpack(' in text
+        good = _cipher_key_cut_to_size(ctx)
     ctx.stats['who-constructs Crypto'] = [fi.qual for fi, _ in sites]
 
     def kills(fi, node, exc, text, call=None):
@@ -66,6 +64,40 @@ def crypto_kills(ctx, also=None):
                     'decrypted; plaintext is padded to a block multiple by PayloadSK.generate (C07/E3)')
         return None
     return kills
+
+
+def _cipher_key_cut_to_size(ctx):
+    """every Crypto(cipher, sk_e, ..) built in generate_ike_sa_key_material gets as sk_e a piece of the key material whose width
+    is the key_size of that very cipher object (value terms: the pieces of the split, however it is written)"""
+    from ..sval import strip_ids
+    from .c04 import Split, RFC_ORDER, key_total
+    from .. import tq
+    gen = ctx.prog.func('ikesa.IkeSa.generate_ike_sa_key_material')
+    V = ctx.sval(gen)
+    kr = V.ret()
+    if not tq.is_call(kr, 'namedtuple.Keyring'):
+        return False
+    a = tq.args(kr)
+    sp = Split(V, [a.get(n) for n in RFC_ORDER])
+    env = {'prf': 5, 'integ': 7, 'encr': 11}
+    sizes = sp.sizes(ctx, gen, env) if sp.kind is not None else None
+    ctors = V.calls_to(callee='new crypto.Crypto')
+    if sizes is None or not ctors:
+        return False
+    if sp.kind == 'slice':
+        # slices are as wide as asked only inside the string: the cut string is prf+ output of exactly the summed width
+        km = sp.src
+        if not tq.is_call(km, 'crypto.Prf.prfplus'):
+            return False
+        if key_total(tq.args(km).get('size', ('const', 'NoneType', None)), env) != sum(sizes):
+            return False
+    ciphers = {strip_ids(x) for x in tq.find(strip_ids(sp.holder), lambda y: tq.is_call(y, 'new crypto.Cipher'))}
+    for c in ctors:
+        ke, ci = c.args.get('sk_e'), c.args.get('cipher')
+        at = [i for i, t in enumerate(sp.terms) if t == ke]
+        if len(at) != 1 or sizes[at[0]] != env['encr'] or ci is None or ciphers != {strip_ids(ci)}:
+            return False
+    return True
 
 
 def _guarded_by_key_size(ctx, fi, node):
